@@ -85,10 +85,12 @@ def c01(tier, seed):
             fam = fam_name(kind, n)
             u = T(n) + 2
             for macro, op in (("c01_anchor", "anchor"), ("c01_not", "not"), ("c01_and", "and"),
-                              ("c01_or", "or"), ("c01_xor", "xor")):
+                              ("c01_or", "or"), ("c01_xor", "xor"), ("c01_alias", "alias")):
                 fn = "c01_%s_%s" % (op, fam)
                 covers = {"reached": "SATISFIED"}
-                if op == "anchor":
+                if op == "alias":
+                    covers.update({"bit set": "SATISFIED"})
+                elif op == "anchor":
                     covers.update({"bit set": "SATISFIED", "bit clear": "SATISFIED"})
                 else:
                     covers.update({"result bit set": "SATISFIED", "result bit clear": "SATISFIED"})
